@@ -27,6 +27,9 @@ CLAIMS.update({
  "C07": ("proof", "Proved: C07.keys_order_irrelevant (the only iteration over an unordered structure is followed by a sort, so any hash-iteration order gives the same key list) and the model's generation being a function of (configuration, entropy) by construction; S3 shows fuzzer-bytes generation equals that model byte for byte. The runtime residue a model cannot exhibit (OS randomness, clock, addresses, thread identity in the compiled Rust) is observed: identical outputs across freshly spawned processes (new hash seeds / ASLR), a case alone vs inside a long-lived process, and 16 threads generating concurrently vs sequentially. Partial in the sense of DESIGN §6 C07.", "§6 C07", "Lean theorem (order independence) + S3 exact correspondence + multi-process / multi-thread comparison"),
  "C12": ("proof", "C12.all_reachable: for every protocol and every opcode of the translated table a witness path of guarded steps from the empty state after which the opcode's guard holds (decide; re-proved whenever /repo's tables change); S1 ties the guards to the code. The 'for some seed with default settings' half is an existential over a concrete PRNG and is decided on the implementation: cached witness seeds re-run first, then seeds 0..1999 (quick) / 0..49999 (thorough), framed and unframed for P>=4.", "§6 C12", "Lean reachability theorem over translated tables + S1 + witness-seed search on the implementation"),
 })
+CLAIMS.update({
+ "C13": ("proof", "C13.* theorems on the option-plumbing model (cli_forwards: the generator main.rs builds equals the one the documented options denote, for all option combinations and seeds; protocol_from_seed; all_expands; batch_names; py_setter_preserves; mutate_trunc; pre-repair counterexamples kept). S7 ties it to the real artefacts: the built binary in single-file and batch mode (RAYON_NUM_THREADS 1/2/16; exactly 0.pkl..N-1.pkl, exit status), scripts/action-run.sh with the real binary, and the _native extension built with --features python-bindings (constructor -> set_opcode_range -> generate / generate_from_bytes / PickleMutator.mutate, with warm-up calls) — every file / returned byte string compared with the Rust library called with the denoted configuration. clap, rayon and PyO3 themselves are exercised, not modelled.", "§6 C13", "Lean theorems on the plumbing model + S7 end-to-end comparison with the library"),
+})
 PENDING = {
  "C07": "check under construction in this session (purity/determinism; model + multi-process comparison)",
  "C08": "check under construction in this session (generator reuse; history model + S6)",
